@@ -256,7 +256,7 @@ pub fn gen_setup_band(r: &mut Rng, profile: Profile, max_k: u32, band: Option<u3
             Kernel::Auto
         }
     };
-    Setup { oti, data, replicas, receivers, kernel }
+    Setup { oti, data, replicas, receivers, kernel, warm: vec![], fresh_check: false }
 }
 
 struct Link {
@@ -540,6 +540,58 @@ pub fn simulate_mega(seed: u64, profile: Profile, oracles: Oracles, transcript: 
     setup.receivers[0].kind = RxKind::Block;
     let n = 65_400 + r.below(800) as u32;
     simulate_setup_mega(r, setup, profile, oracles, transcript, Some(n))
+}
+
+/// "Thread history" sessions of C18: before the transfer the sender thread serves blocks of related
+/// sizes (same J, or same S and H, or the neighbouring table rows, or anything) at the internal
+/// symbol ids the transfer is about to use; at the end a sample of the ledger is re-requested from a
+/// fresh thread. A per-thread (or per-process) memo keyed by less than the full (K', ISI) shows up
+/// as a history-dependent packet.
+pub fn simulate_history(seed: u64, profile: Profile, oracles: Oracles, transcript: bool) -> SimOut {
+    use crate::tables::T2;
+    let mut r = Rng::new(seed);
+    let rows: Vec<(u32, u32, u32, u32, u32)> = T2.iter().copied().filter(|x| x.0 <= 1300).collect();
+    // main block size: mostly one that has a relative sharing J among the small rows
+    let (main, relatives): ((u32, u32, u32, u32, u32), Vec<u32>) = loop {
+        let m = *r.pick(&rows);
+        if m.0 > 420 {
+            continue;
+        }
+        let rel: Vec<u32> = match r.below(4) {
+            0 | 1 => rows.iter().filter(|x| x.1 == m.1 && x.0 != m.0).map(|x| x.0).collect(),
+            2 => rows.iter().filter(|x| x.2 == m.2 && x.3 == m.3 && x.0 != m.0).map(|x| x.0).collect(),
+            _ => {
+                let i = rows.iter().position(|x| x.0 == m.0).unwrap();
+                let mut v = vec![];
+                if i > 0 {
+                    v.push(rows[i - 1].0);
+                }
+                if i + 1 < rows.len() {
+                    v.push(rows[i + 1].0);
+                }
+                v
+            }
+        };
+        if !rel.is_empty() {
+            break (m, rel);
+        }
+    };
+    let kp = main.0;
+    let mut setup = gen_setup_band(&mut r, profile, kp, Some(kp));
+    let mut warm = vec![];
+    for _ in 0..r.urange(1, 3) {
+        let k = *r.pick(&relatives);
+        // the relative's own construction touches the ids below its K'; its windows are placed on
+        // the ids the transfer will use first (right after the main block's K')
+        let s = kp.saturating_sub(k);
+        warm.push(Warm { k, s, n: 64 });
+        if r.chance(1, 2) {
+            warm.push(Warm { k, s: 0, n: r.range(1, 64) as u32 });
+        }
+    }
+    setup.warm = warm;
+    setup.fresh_check = true;
+    simulate_setup(r, setup, profile, oracles, transcript)
 }
 
 pub fn simulate_setup(r: Rng, setup: Setup, profile: Profile, oracles: Oracles, transcript: bool) -> SimOut {
